@@ -76,7 +76,7 @@ static ssize_t fake_read(int fd, void *buf, size_t n)
     if (rd_item[rd_cur].kind == 2) { rd_cur++; return 0; }
     size_t avail = rd_item[rd_cur].len - rd_item[rd_cur].off;
     size_t k = n < avail ? n : avail;
-    memcpy(buf, rd_item[rd_cur].b + rd_item[rd_cur].off, k);
+    if (k > 0) memcpy(buf, rd_item[rd_cur].b + rd_item[rd_cur].off, k);
     rd_item[rd_cur].off += k;
     if (rd_item[rd_cur].off >= rd_item[rd_cur].len) rd_cur++;
     return (ssize_t)k;
@@ -108,6 +108,7 @@ static ssize_t fake_write(int fd, const void *buf, size_t n)
         if (a < 0) { errno = EAGAIN; return -1; }
         if ((size_t)a < k) k = (size_t)a;
     }
+    if (k == 0) return 0;
     if (wr_len + (long)k > wr_cap) { wr_cap = (wr_len + (long)k) * 2 + 64; wr_buf = realloc(wr_buf, wr_cap); }
     memcpy(wr_buf + wr_len, buf, k);
     wr_len += (long)k;
